@@ -393,10 +393,46 @@ def csr_internals(ctx):
         pass
 
 
+IDNA_SAMPLES = ["example.org", "Example.ORG", "ns1.xn--HLO-bma.Example.com", "XN--HLO-BMA.example.com", "m\u00fcnchen.de", "M\u00dcNCHEN.De", "*.Example.org",
+                "a.b-c.D", "stra\u00dfe.example", "\u4f8b\u3048.\u30c6\u30b9\u30c8"]
+
+
+def idna_rule(ctx, rid):
+    """acme_common::to_idna EVALUATED on sample names (punycode::encode answered by Python's punycode codec): every label is
+    lower-cased, a non-ASCII label becomes `xn--` + punycode(lower-cased label), labels are joined with '.'; an A-label given
+    in mixed case is lower-cased like any other ASCII label. Shared by C01 (identifiers in the order/CSR), C06 (names compared
+    with the certificate) and C16 (the name tacd puts in its certificate). Not evaluable -> no verdict from this rule."""
+    prog = ctx.prog
+    b = prog.body("acme_common::to_idna")
+    if b is None:
+        return
+
+    def model(cs, args):
+        n = cs.name or ""
+        d = [a.deref() for a in args]
+        if n.startswith("punycode::encode") and d and d[0].k == "str":
+            return ok(Val("str", d[0].v.encode("punycode").decode("ascii")))
+        return None
+    rows = []
+    for dn in IDNA_SAMPLES:
+        try:
+            r = run(b, {1: Val("ref", Val("str", dn))}, model, max_steps=60000)
+        except Exception:
+            return
+        rv = r.ret.deref() if r.kind == "return" and r.ret is not None else None
+        if rv is None or rv.k != "adt" or not rv.extra or rv.extra[1] != "Ok" or not rv.v or rv.v[0].deref().k != "str":
+            return
+        want = ".".join((l.lower() if all(ord(c) < 128 for c in l) else "xn--" + l.lower().encode("punycode").decode("ascii")) for l in dn.split("."))
+        rows.append((dn, rv.v[0].deref().v, want))
+    for dn, got, want in rows:
+        ctx.require(rid, got == want, "%s:%s" % (b.file, b.line), "to_idna(%r) evaluates to %r (lower-cased A-labels: %r)" % (dn, got, want), ["acme_common::to_idna", "value", dn])
+
+
 def normalisation_rule(ctx, R4):
     """Identifier::new(type, v).value, evaluated per identifier type: to_idna(v) for Dns, IpAddr::from_str(v).to_string() for Ip —
     shared with C06 (the certificate's SAN text is canonical, so a non-canonical configured IP would look `missing` for ever)"""
     prog = ctx.prog
+    idna_rule(ctx, R4)
     inew = prog.must_body(IDENT + "::new")
 
     def model(cs_, args):
